@@ -7,9 +7,16 @@
     the code over the list instance of the libraries. *)
 From Coq Require Import List Bool ZArith NArith.
 Import ListNotations.
-From Verif Require Export Common.ListX C04.Val C04.Lib C04.Syntax C04.Model C04.Spec C04.Abs.
+From Verif Require Export Common.ListX C04.Val C04.Lib C04.Syntax C04.Model C04.Spec C04.Abs C04.Variadic.
 
-Inductive case := CHist (ops : list op).
+(** [CHistV gs ops]: a history with variadic calls (C04/Variadic.v).  [ops] is the history with
+    every variadic call unfolded to the left fold of the unary operation (a group of
+    consecutive operations, each naming the slot of the one before it); [gs] are the group
+    sizes.  The implementation performs each group as ONE variadic call and reports one
+    observation per group. *)
+Inductive case := CHist (ops : list op) | CHistV (gs : list nat) (ops : list op).
+
+Definition model_obs (ops : list op) : list sres := abs_slots ListLibs (irun ListLibs ops).
 
 Inductive out :=
 | OOut (obs : list sres) (stable : bool) (cells : list coll)
@@ -22,6 +29,14 @@ Definition spec_ok (c : case) (o : out) : bool :=
       | Some h => stable && cells_ok h cells
       | None => false
       end
+  (* the hidden intermediate values of the groups are witnesses taken from the model; [srun]
+     checks them against the unary specification like every other result *)
+  | CHistV gs ops, OOut vis stable cells =>
+      Nat.eqb (list_sum gs) (length ops) && Nat.eqb (length gs) (length vis) &&
+      match srun ops [] (fill gs (model_obs ops) vis) [] with
+      | Some h => stable && cells_ok h cells
+      | None => false
+      end
   | _, OFail _ => false
   end.
 
@@ -30,6 +45,10 @@ Definition model (c : case) : out :=
   | CHist ops =>
       let st := irun ListLibs ops in
       OOut (abs_slots ListLibs st) true
+           (map (fun c => cell_coll (abs_cell ListLibs c)) (heap st))
+  | CHistV gs ops =>
+      let st := irun ListLibs ops in
+      OOut (project gs (abs_slots ListLibs st)) true
            (map (fun c => cell_coll (abs_cell ListLibs c)) (heap st))
   end.
 
@@ -53,7 +72,7 @@ Definition out_eqb (a b : out) : bool :=
     on a collection with metadata (F-04b) *)
 Definition tag (c : case) : N :=
   match c with
-  | CHist ops => ((if indices_nonneg ListLibs ops then 0 else 1)
+  | CHist ops | CHistV _ ops => ((if indices_nonneg ListLibs ops then 0 else 1)
                   + (if meta_args_nonnil ListLibs ops then 0 else 2))%N
   end.
 
